@@ -856,7 +856,11 @@ class Interp:
 
     def s_Raise(self, s, f):
         if s.exc is None:
-            raise PyRaise(RuntimeError, ("re-raise",), s)
+            # bare raise: the exception being handled is raised again
+            stack = getattr(f, "_handling", None)
+            if stack:
+                raise stack[-1]
+            raise PyRaise(RuntimeError, ("No active exception to reraise",), s)
         if isinstance(s.exc, ast.Call):
             et = self.eval(s.exc.func, f)
             try:
@@ -914,7 +918,14 @@ class Interp:
                     if self.exc_matches(e, h, f):
                         if h.name:
                             f.locals[h.name] = e
-                        self.exec_block(h.body, f)
+                        stack = f.__dict__.setdefault("_handling", []) if hasattr(f, "__dict__") else None
+                        if stack is not None:
+                            stack.append(e)
+                        try:
+                            self.exec_block(h.body, f)
+                        finally:
+                            if stack is not None:
+                                stack.pop()
                         break
                 else:
                     raise
